@@ -198,6 +198,12 @@ func newNhNet(rec *nhRec, seed int64) *nhNet {
 		hostOf: map[string]int{}, noChunk: map[string]bool{}}
 }
 
+func (n *nhNet) isDead(addr string) bool {
+	n.mu.Lock()
+	defer n.mu.Unlock()
+	return n.dead[addr]
+}
+
 type nhTransportFactory struct {
 	net *nhNet
 }
